@@ -20,10 +20,17 @@ pieces of worker code between two blocking channel operations / `verif` hook poi
                   iff it is the `threads`-th to do so;
   `fixed = false` (code as found): it closes `out` iff all tokens are back (`len(work) == threads`).
 
-Environment actors: a producer (submits `todo` in order, then closes `in` if asked), one
-collector (receives from `out` until it sees it closed), a stopper (`Stop`), a waiter (`Wait`).
+Environment actors, any number of each: producers (producer `p` submits its list
+`prods[p]` in order with `Process`; producer 0 closes `in` with `Close`, if asked, once every
+producer has submitted everything), collectors (each receives from `out` with `Result` until it
+sees it closed), a stopper (`Stop`), a waiter (`Wait`).  `out` with several receivers: a
+collector that finds the buffer empty joins the queue `recvq` of waiting receivers (oldest
+first, as in the Go runtime); a sender hands its value to the oldest waiting receiver, else
+buffers it, else blocks; closing `out` wakes every waiting receiver.
+
 A runtime panic (`close of closed channel`, `send on closed channel`) is recorded in
-`crashed`; nothing moves afterwards (the process is dead).
+`crashed`; nothing moves afterwards (the process is dead).  `subm` is a ghost variable: the
+sequence of submissions `(producer, operation)` in the order in which they entered `in`.
 -/
 import Biogo.Go.LTS
 
@@ -62,25 +69,38 @@ inductive Crash where
 deriving Repr, DecidableEq
 
 inductive Actor where
-  | worker (i : Nat) | producer | collector | stopper | waiter
+  | worker (i : Nat) | producer (p : Nat) | collector (k : Nat) | stopper | waiter
 deriving Repr, DecidableEq
 
 structure Cfg where
   threads : Nat
   outCap : Nat
   inCap : Nat
-  ops : List Op
+  /-- the operations of each producer, in its submission order -/
+  prods : List (List Op)
+  /-- number of collectors -/
+  ncoll : Nat
   wantClose : Bool
   fixed : Bool
 deriving Repr
 
+/-- the configuration with one producer and one collector -/
+def Cfg.single (threads outCap inCap : Nat) (ops : List Op) (wantClose fixed : Bool) : Cfg :=
+  { threads := threads, outCap := outCap, inCap := inCap, prods := [ops], ncoll := 1,
+    wantClose := wantClose, fixed := fixed }
+
+/-- every operation of the configuration -/
+def Cfg.ops (c : Cfg) : List Op := c.prods.flatten
+
 structure St where
-  todo : List Op
+  todo : List (List Op)
   inq : List Op
   inClosed : Bool
   outq : List Res
-  handoff : Option Res
-  recvWaiting : Bool
+  /-- per collector: the value a sender handed to it while it was waiting -/
+  handoff : List (Option Res)
+  /-- collectors blocked in a receive on `out`, oldest first -/
+  recvq : List Nat
   closes : Nat
   crashed : Option Crash
   stop : Bool
@@ -88,25 +108,30 @@ structure St where
   exited : Nat
   wgDone : Nat
   ws : List WPc
-  cpc : CPc
-  delivered : List Res
+  cpcs : List CPc
+  /-- per collector: what it has received -/
+  delivered : List (List Res)
   taken : List Op
+  subm : List (Nat × Op)
   waitReturned : Bool
 deriving Repr, DecidableEq
 
 def init (c : Cfg) : St :=
-  { todo := c.ops, inq := [], inClosed := false, outq := [], handoff := none, recvWaiting := false,
+  { todo := c.prods, inq := [], inClosed := false, outq := [],
+    handoff := List.replicate c.ncoll none, recvq := [],
     closes := 0, crashed := none, stop := false, work := c.threads, exited := 0, wgDone := 0,
-    ws := List.replicate c.threads .idle, cpc := .ready, delivered := [], taken := [],
+    ws := List.replicate c.threads .idle, cpcs := List.replicate c.ncoll .ready,
+    delivered := List.replicate c.ncoll [], taken := [], subm := [],
     waitReturned := false }
 
-/-- `out <- r` by a worker: crash if closed, hand over to a waiting receiver, else buffer,
-    else blocked -/
+/-- `out <- r` by a worker: crash if closed, hand over to the oldest waiting receiver, else
+    buffer, else blocked -/
 def sendOut (c : Cfg) (s : St) (r : Res) : Option St :=
   if s.closes > 0 then some { s with crashed := some .sendOnClosed }
-  else if s.recvWaiting then some { s with handoff := some r, recvWaiting := false }
-  else if s.outq.length < c.outCap then some { s with outq := s.outq ++ [r] }
-  else none
+  else
+    match s.recvq with
+    | k :: rest => some { s with handoff := s.handoff.set k (some r), recvq := rest }
+    | [] => if s.outq.length < c.outCap then some { s with outq := s.outq ++ [r] } else none
 
 /-- the exit block after hook `worker.token_returned` -/
 def exitBlock (c : Cfg) (s : St) (i : Nat) : St :=
@@ -146,35 +171,46 @@ def workerStep (c : Cfg) (s : St) (i : Nat) : Option St :=
   | some .tokret => some (exitBlock c s i)
   | some .done => none
 
-def producerStep (c : Cfg) (s : St) : Option St :=
-  match s.todo with
-  | op :: rest =>
-    if s.inClosed then none
-    else if s.inq.length < c.inCap then some { s with todo := rest, inq := s.inq ++ [op] } else none
-  | [] =>
-    if c.wantClose && !s.inClosed then some { s with inClosed := true } else none
+/-- every producer has submitted everything -/
+def allSubmitted (s : St) : Bool := s.todo.all List.isEmpty
 
-def collectorStep (s : St) : Option St :=
-  match s.cpc with
-  | .ready =>
+def producerStep (c : Cfg) (s : St) (p : Nat) : Option St :=
+  match s.todo[p]? with
+  | none => none
+  | some (op :: rest) =>
+    if s.inClosed then none
+    else if s.inq.length < c.inCap then
+      some { s with todo := s.todo.set p rest, inq := s.inq ++ [op], subm := s.subm ++ [(p, op)] }
+    else none
+  | some [] =>
+    if p == 0 && c.wantClose && !s.inClosed && allSubmitted s then some { s with inClosed := true } else none
+
+def collectorStep (s : St) (k : Nat) : Option St :=
+  match s.cpcs[k]? with
+  | none => none
+  | some .ready =>
     match s.outq with
-    | r :: rest => some { s with outq := rest, delivered := s.delivered ++ [r] }
+    | r :: rest => some { s with outq := rest, delivered := s.delivered.set k (s.delivered.getD k [] ++ [r]) }
     | [] =>
-      if s.closes > 0 then some { s with cpc := .closedSeen }
-      else some { s with recvWaiting := true, cpc := .receiving }
-  | .receiving =>
-    match s.handoff with
-    | some r => some { s with handoff := none, delivered := s.delivered ++ [r], cpc := .ready }
+      if s.closes > 0 then some { s with cpcs := s.cpcs.set k .closedSeen }
+      else some { s with recvq := s.recvq ++ [k], cpcs := s.cpcs.set k .receiving }
+  | some .receiving =>
+    match s.handoff.getD k none with
+    | some r =>
+      some { s with handoff := s.handoff.set k none,
+                    delivered := s.delivered.set k (s.delivered.getD k [] ++ [r]),
+                    cpcs := s.cpcs.set k .ready }
     | none =>
-      if s.closes > 0 then some { s with recvWaiting := false, cpc := .closedSeen } else none
-  | .closedSeen => none
+      if s.closes > 0 then some { s with recvq := s.recvq.erase k, cpcs := s.cpcs.set k .closedSeen }
+      else none
+  | some .closedSeen => none
 
 def step (c : Cfg) (s : St) (a : Actor) : Option St :=
   if s.crashed.isSome then none else
   match a with
   | .worker i => workerStep c s i
-  | .producer => producerStep c s
-  | .collector => collectorStep s
+  | .producer p => producerStep c s p
+  | .collector k => collectorStep s k
   | .stopper => if s.stop then none else some { s with stop := true }
   | .waiter => if !s.waitReturned && s.wgDone == c.threads then some { s with waitReturned := true } else none
 
@@ -196,6 +232,9 @@ def WPc.exiting : WPc → Bool
 
 def allDone (s : St) : Bool := s.ws.all WPc.isDone
 
+/-- every collector has seen `out` closed -/
+def allSeen (s : St) : Bool := s.cpcs.all (· == .closedSeen)
+
 /-- results a worker is holding (computed, not yet sent) -/
 def heldOf : WPc → Option Res
   | .send r => some r
@@ -204,8 +243,17 @@ def heldOf : WPc → Option Res
 
 def held (s : St) : List Res := s.ws.filterMap heldOf
 
+/-- values in hand-over to a waiting collector -/
+def handed (s : St) : List Res := s.handoff.filterMap id
+
+/-- everything the collectors have received -/
+def allDelivered (s : St) : List Res := s.delivered.flatten
+
 /-- every result that exists anywhere: held by a worker, in `out`, in hand-over, delivered -/
-def results (s : St) : List Res := held s ++ s.outq ++ s.handoff.toList ++ s.delivered
+def results (s : St) : List Res := held s ++ s.outq ++ handed s ++ allDelivered s
+
+/-- what producer `p` has submitted so far, in order -/
+def submittedBy (s : St) (p : Nat) : List Op := (s.subm.filter (·.1 == p)).map Prod.snd
 
 /-! ### Map: chunking (concurrent/map.go) -/
 
